@@ -11,7 +11,9 @@ def check(ctx):
         "through `?` (no unwrap, no unchecked index) so no-op spans, missing scopes and empty tokens give None; R4 "
         "Span::root copies trace_id/span_id/sampled of a context into the root token (closing the loop context -> remote "
         "child's parent); R5 the traceparent decoder never turns a parsed value into a None result (every id an "
-        "extracted context can carry survives encode -> decode).")
+        "extracted context can carry survives encode -> decode); R6 setting a span as local parent opens a scope on every path, "
+        "also for a span of an unsampled trace (current_local_parent() must answer that span with sampled = false, not the "
+        "enclosing scope's parent).")
     ctx.not_decided = ("that the delivered child record carries that parent for every program point (composition of "
                        "C02/C11 rules); the W3C text round trip is C12.")
     facts = ctx.facts("E")
@@ -29,5 +31,6 @@ def check(ctx):
     provrules.rule_token_items(ctx, facts, "R4", fields=("trace_id", "parent_id", "is_sampled"))
     provrules.rule_context_constructors(ctx, facts, "R4")
     # the text round trip itself is C12; its one structural clause that C11 depends on: no value is refused by the decoder
-    from .. import codec
+    from .. import codec, scopes
+    scopes.rule_scope_always_opened(ctx, facts, "R6")
     codec.rule_values_not_tested(ctx, facts, "R5")
